@@ -35,6 +35,7 @@ type vDB struct {
 	sched    int
 	autoSched bool // run a pending flush at solver/fork-chosen sync points inside client calls
 	cycles   int
+	dirSuffix  string // spelling of the directory as given to NewSimpleDB: "" or "/" (a trailing separator is accepted)
 	checkLeaks bool // close() also requires that nothing under the directory stays open (C19)
 	gate     chan struct{} // native runs of gated harnesses: one token lets the stalled flusher write one table
 }
@@ -59,7 +60,7 @@ func (h *vDB) open(opts ...ExtraOption) error {
 		opts = append([]ExtraOption{DisableCompactions()}, opts...)
 	}
 	h.compactorExited = false
-	db, err := NewSimpleDB(h.dir, opts...)
+	db, err := NewSimpleDB(h.dir+h.dirSuffix, opts...)
 	vrt.Assert(err == nil, "db/new-no-error")
 	h.db = db
 	h.pending = nil
